@@ -1,6 +1,7 @@
 package rules
 
 import (
+	"go/token"
 	"go/types"
 	"strings"
 
@@ -26,6 +27,7 @@ func (c *Ctx) GLOB(rule string) []report.Obligation {
 	}
 	c.Stats[rule+".globals"] = nGlobals
 	writers := map[string]bool{}
+	guardedBy := map[*ssa.Global]string{} // globals written after init while a package-level mutex is held
 	for _, f := range c.P.Funcs {
 		if isInitFunc(f) {
 			continue
@@ -65,6 +67,7 @@ func (c *Ctx) GLOB(rule string) []report.Obligation {
 				gname := c.P.Rel(g.Pkg.Pkg) + "." + g.Name()
 				if mu := heldGlobalMutex(f, in); mu != "" {
 					what += " (holding " + mu + ")"
+					guardedBy[g] = mu
 				}
 				k := gname + " :: " + what + " in " + c.P.FuncID(f)
 				if writers[k] {
@@ -98,6 +101,41 @@ func (c *Ctx) GLOB(rule string) []report.Obligation {
 			writers[k] = true
 			out = append(out, report.Obligation{Rule: rule, Key: k, Pos: c.P.InstrPos(ev.in), Status: report.Violation,
 				Why: "the data of package-level variable " + gname + " is modified after initialisation through a copy of its slice header / map / pointer (" + what + "): state shared between loads and between goroutines"})
+		}
+	}
+	// a variable that is written under a mutex is read under the same mutex: an unlocked read races with the write
+	readers := map[string]bool{}
+	for _, f := range c.P.Funcs {
+		if isInitFunc(f) {
+			continue
+		}
+		for _, b := range f.Blocks {
+			for _, in := range b.Instrs {
+				ld, ok := in.(*ssa.UnOp)
+				if !ok || ld.Op != token.MUL {
+					continue
+				}
+				g := globalRoot(ld.X)
+				if g == nil {
+					continue
+				}
+				mu, isGuarded := guardedBy[g]
+				if !isGuarded {
+					continue
+				}
+				gname := c.P.Rel(g.Pkg.Pkg) + "." + g.Name()
+				k := gname + " :: read in " + c.P.FuncID(f)
+				held := heldGlobalMutex(f, in)
+				if held != mu {
+					k += " without " + mu
+				}
+				if readers[k] {
+					continue
+				}
+				readers[k] = true
+				out = append(out, verdict(held == mu, rule+"-read", k, c.P.InstrPos(in), "read while holding "+mu+", the mutex its writers hold",
+					"package-level variable "+gname+" is written while holding "+mu+" but read here without it: a load that runs concurrently with another races with the write"))
+			}
 		}
 	}
 	out = append(out, report.Obligation{Rule: rule, Key: "inventory", Status: report.Discharged,
